@@ -7,6 +7,7 @@ From Coq Require Import ZArith QArith NArith String Ascii Bool Lia List.
 Import ListNotations.
 From TP Require Import Base.PyVal Base.PyOps Base.PyOps2 Base.PyObj Fields.FieldAst Fields.SetChain
      Struct.Instance Gen.StructGuards.
+From TP Require Base.PyOpsVersioned.
 Local Open Scope Z_scope.
 
 (* ------------------------------------------------------------------ how an instance of class c is seen as a heap *)
@@ -68,11 +69,13 @@ Proof.
 Qed.
 
 (* the documented decision of Structure.__setattr__ for an ordinary attribute name *)
-Definition setattr_decision (c : classdef) (instantiated : bool) (n : pystr) (v : pyval) : res (option pyval) :=
+(* [Some (v, true)]: v is handed to the descriptor chain, and whatever the chain raises is re-raised after
+   self.__dict__[n] has been put back to what it was before the hand-over *)
+Definition setattr_decision (c : classdef) (instantiated : bool) (n : pystr) (v : pyval) : res (option (pyval * bool)) :=
   if c_immutable c && instantiated then Raise ValueError
   else if negb (c_additional c || str_in n (field_names c)) then Raise ValueError
   else if c_ignore_none c && is_none_val v && negb (is_required c n) then Ok None
-  else Ok (Some v).
+  else Ok (Some (v, true)).
 
 Definition ordinary_name (n : pystr) : bool := negb (str_is_sunder n) && negb (str_is_dunder n).
 
@@ -152,19 +155,41 @@ Section Bridge.
         end
     end.
 
+  (* the hand-over as Structure.__setattr__ performs it: with [rb] an exception of the chain leaves the
+     attributes as they were before it *)
+  Definition handover (c : classdef) (instantiated : bool) (a : attrs) (n : pystr) (vr : pyval * bool) : attrs * outcome :=
+    match descriptor c instantiated a n (fst vr) with
+    | (a', Raised x) => (if snd vr then a else a', Raised x)
+    | r => r
+    end.
+
   (* the hand-written [setattr] IS the source's guard prefix followed by the descriptor *)
   Lemma setattr_factors : forall c inst a n v,
       setattr re_match e c inst a n v =
       match setattr_decision c inst n v with
       | Raise x => (a, Raised x)
       | Ok None => (a, Done)
-      | Ok (Some v') => descriptor c inst a n v'
+      | Ok (Some vr) => handover c inst a n vr
       end.
   Proof.
-    intros c inst a n v. unfold setattr, setattr_decision, descriptor. rewrite in_field_names.
+    intros c inst a n v. unfold setattr, setattr_decision, handover, descriptor. rewrite in_field_names.
     destruct (c_immutable c && inst); [reflexivity|].
     destruct (find_field (c_fields c) n) as [fd|]; destruct (c_additional c); cbn [orb negb];
-      destruct (c_ignore_none c && is_none_val v && negb (is_required c n)); reflexivity.
+      destruct (c_ignore_none c && is_none_val v && negb (is_required c n)); try reflexivity; cbn [fst snd].
+    all: destruct (vset re_match e (fd_field fd) v) as [nf|x]; [|reflexivity].
+    all: destruct (fd_immutable fd && alist_has a n); [reflexivity|].
+    all: destruct (inst && negb (hook_ok (c_hook c) (alist_set a n nf))); reflexivity.
+  Qed.
+
+  (* without the restore (the source before the repair of F4) a hook failure would leave the new value stored *)
+  Lemma handover_without_restore_not_atomic : forall c a n v fd nf,
+      find_field (c_fields c) n = Some fd -> vset re_match e (fd_field fd) v = Ok nf ->
+      (fd_immutable fd && alist_has a n) = false -> hook_ok (c_hook c) (alist_set a n nf) = false ->
+      handover c true a n (v, false) = (alist_set a n nf, Raised ValueError) /\
+      handover c true a n (v, true) = (a, Raised ValueError).
+  Proof.
+    intros c a n v fd nf Hf Hv Hi Hh. unfold handover, descriptor. cbn [fst snd].
+    rewrite Hf, Hv, Hi, Hh. split; reflexivity.
   Qed.
 
   Theorem generated_setattr_is_model : forall c inst a n v,
@@ -173,37 +198,117 @@ Section Bridge.
       match Structure__setattr (struct_heap c inst) (PStr n) v with
       | Raise x => (a, Raised x)
       | Ok None => (a, Done)
-      | Ok (Some v') => descriptor c inst a n v'
+      | Ok (Some vr) => handover c inst a n vr
       end.
   Proof. intros. rewrite generated_setattr by assumption. apply setattr_factors. Qed.
 
   (* ---------------------------------------------------------------- Structure.__delitem__ *)
-  Definition delitem_heap (c : classdef) : heap :=
-    fun o a => if pystr_eqb o (s2p "self") && pystr_eqb a (s2p "_required")
-               then Some (names_list (c_required c)) else None.
+  (* an instantiated instance of class c; get_all_fields_by_name() maps each field name to its Field object
+     "field:<name>", whose `_immutable` is the field's flag *)
+  Definition fld_obj (n : pystr) : pystr := s2p "field:" ++ n.
+  Definition un_fld (o : pystr) : option pystr :=
+    match o with
+    | 102%N :: 105%N :: 101%N :: 108%N :: 100%N :: 58%N :: n => Some n
+    | _ => None
+    end.
+  Definition fields_dict (c : classdef) : pyval :=
+    PDict (map (fun fd => (PStr (fd_name fd), ref (fld_obj (fd_name fd)))) (c_fields c)).
 
-  Lemma generated_delitem : forall c n,
-      Structure__delitem (delitem_heap c) (PStr n) =
-      if is_required c n then Raise ValueError else Ok tt.
+  Definition delitem_heap (c : classdef) : heap :=
+    fun o a =>
+      if pystr_eqb o (s2p "self") then
+        if pystr_eqb a (s2p "_immutable") then Some (PBool (c_immutable c))
+        else if pystr_eqb a (s2p "get_all_fields_by_name()") then Some (fields_dict c)
+        else if pystr_eqb a (s2p "_required") then Some (names_list (c_required c))
+        else if pystr_eqb a (s2p "_instantiated") then Some (PBool true)
+        else None
+      else match un_fld o with
+           | Some n => if pystr_eqb a (s2p "_immutable")
+                       then match find_field (c_fields c) n with
+                            | Some fd => Some (PBool (fd_immutable fd))
+                            | None => None
+                            end
+                       else None
+           | None => None
+           end.
+
+  Lemma un_fld_obj n : un_fld (fld_obj n) = Some n.
+  Proof. reflexivity. Qed.
+  Lemma fld_obj_not_self n : pystr_eqb (fld_obj n) (s2p "self") = false.
+  Proof. reflexivity. Qed.
+
+  Lemma fields_dict_get c n :
+    PyOpsVersioned.py_dict_get (fields_dict c) (PStr n) PNone =
+    Ok (match find_field (c_fields c) n with Some _ => ref (fld_obj n) | None => PNone end).
   Proof.
-    intros c n. unfold Structure__delitem, obj_getattr, ref, is_required.
-    change (pystr_eqb ref_tag ref_tag) with true. cbv beta iota.
-    change (delitem_heap c (s2p "self") (s2p "_required")) with (Some (names_list (c_required c))).
-    cbn [bind py_and]. change (py_isinstance (names_list (c_required c)) [K_list]) with true.
-    cbn [bind]. rewrite in_names_list. cbn [bind].
-    destruct (str_in n (c_required c)); reflexivity.
+    unfold fields_dict, PyOpsVersioned.py_dict_get. cbn [py_hashable']. f_equal.
+    induction (c_fields c) as [|d t IH]; [reflexivity|].
+    cbn [map dict_get py_eq find_field]. destruct (pystr_eqb (fd_name d) n) eqn:E; [|exact IH].
+    apply pystr_eqb_spec in E. subst n. reflexivity.
   Qed.
 
-  (* mstep's DelItem is that guard followed by the dictionary deletion *)
+  (* Structure.__delitem__: refused on an immutable class, for an immutable field and for a required name;
+     otherwise the entry is removed, __validate__ runs and a rejection puts the removed value back *)
+  Definition delitem_decision (c : classdef) (n : pystr) : res (bool * bool) :=
+    if c_immutable c then Raise ValueError
+    else if field_immutable c n then Raise ValueError
+    else if is_required c n then Raise ValueError
+    else Ok (true, true).
+
+  Lemma generated_delitem : forall c n,
+      Structure__delitem (delitem_heap c) (PStr n) = delitem_decision c n.
+  Proof.
+    intros c n. unfold Structure__delitem, delitem_decision, obj_getattr_def, obj_getattr, ref, is_required, field_immutable.
+    change (pystr_eqb ref_tag ref_tag) with true. cbv beta iota.
+    change (delitem_heap c (s2p "self") (s2p "_immutable")) with (Some (PBool (c_immutable c))).
+    change (delitem_heap c (s2p "self") (s2p "get_all_fields_by_name()")) with (Some (fields_dict c)).
+    change (delitem_heap c (s2p "self") (s2p "_required")) with (Some (names_list (c_required c))).
+    change (delitem_heap c (s2p "self") (s2p "_instantiated")) with (Some (PBool true)).
+    change (delitem_heap c (s2p "self") (s2p "_skip_validation")) with (@None pyval).
+    cbn [bind py_truthy]. destruct (c_immutable c); [reflexivity|]. cbn [bind].
+    rewrite fields_dict_get. cbn [bind].
+    assert (H : forall fd, find_field (c_fields c) n = Some fd ->
+                delitem_heap c (fld_obj n) (s2p "_immutable") = Some (PBool (fd_immutable fd))).
+    { intros fd Ef. unfold delitem_heap. rewrite fld_obj_not_self, un_fld_obj, Ef. reflexivity. }
+    destruct (find_field (c_fields c) n) as [fd|]; unfold ref.
+    - change (pystr_eqb ref_tag ref_tag) with true. cbv beta iota. rewrite (H fd eq_refl).
+      cbn [bind py_truthy]. destruct (fd_immutable fd); [reflexivity|].
+      cbn [bind py_and py_not]. change (py_isinstance (names_list (c_required c)) [K_list]) with true.
+      cbn [bind]. rewrite in_names_list. cbn [bind].
+      destruct (str_in n (c_required c)); reflexivity.
+    - cbn [bind py_truthy py_and py_not]. change (py_isinstance (names_list (c_required c)) [K_list]) with true.
+      cbn [bind]. rewrite in_names_list. cbn [bind].
+      destruct (str_in n (c_required c)); reflexivity.
+  Qed.
+
+  (* mstep's DelItem is that guard followed by the removal, the hook and the restore *)
+  Definition delete_entry (c : classdef) (a : attrs) (n : pystr) (hr : bool * bool) : attrs * outcome :=
+    if alist_has a n then
+      if fst hr && negb (hook_ok (c_hook c) (alist_del a n))
+      then (if snd hr then a else alist_del a n, Raised ValueError)
+      else (alist_del a n, Done)
+    else (a, Raised KeyError).
+
   Lemma generated_delitem_is_model : forall c a n,
       mstep re_match e c a (DelItem n) =
       match Structure__delitem (delitem_heap c) (PStr n) with
       | Raise x => (a, Raised x)
-      | Ok _ => if alist_has a n then (alist_del a n, Done) else (a, Raised KeyError)
+      | Ok hr => delete_entry c a n hr
       end.
   Proof.
-    intros c a n. rewrite generated_delitem. cbn [mstep].
-    destruct (is_required c n); reflexivity.
+    intros c a n. rewrite generated_delitem. unfold delitem_decision, delete_entry. cbn [mstep fst snd].
+    destruct (c_immutable c), (field_immutable c n), (is_required c n); cbn [orb]; try reflexivity.
+    destruct (alist_has a n); [|reflexivity].
+    destruct (hook_ok (c_hook c) (alist_del a n)); reflexivity.
+  Qed.
+
+  (* deleting from an instance of an immutable class, or an immutable field, always raises ValueError *)
+  Lemma generated_delitem_guarded : forall c n,
+      c_immutable c || field_immutable c n = true ->
+      Structure__delitem (delitem_heap c) (PStr n) = Raise ValueError.
+  Proof.
+    intros c n H. rewrite generated_delitem. unfold delitem_decision.
+    destruct (c_immutable c); [reflexivity|]. cbn [orb] in H. rewrite H. reflexivity.
   Qed.
 
   (* ---------------------------------------------------------------- ImmutableMixin._is_immutable / _raise_if_immutable *)
